@@ -4,6 +4,7 @@
   collection are outside the model and only observed on loopback by the thorough tier.)
 -/
 import Snmp.Model.Udp
+import Snmp.Gen.Facts
 namespace Snmp.Props.C13
 open Snmp.Udp
 
@@ -284,5 +285,10 @@ theorem C13_cancel_late (packet : Bytes) (timeout retries : Nat) (outs : List Ou
 /- non-vacuity: abandoned in the second attempt of three; ends by itself when the deadline is later -/
 example : (sendUdpCancel [1] 4 3 [.none, .reply 2 [9]] 5).2 = true ∧ (sendUdpCancel [1] 4 3 [.none, .reply 2 [9]] 5).1.sends = [[1], [1]] ∧
     (sendUdpCancel [1] 4 3 [.none, .reply 2 [9]] 6).2 = false := by decide
+
+
+/-- in `send_udp` every attempt's transport is closed in the `finally` of the `try` around `get_data`
+    (shape of the code, generated) — why `Udp.loop` / `Udp.loopCancel` count one `closed` per `opened` -/
+theorem C13_close_shape : Snmp.Gen.udpClosesInFinally = true := by decide
 
 end Snmp.Props.C13
